@@ -142,6 +142,7 @@ func (en *Engine) verifyFunc(fn *ssa.Function, ct *FuncContract, findings ...*Fi
 			vc.assume(not(gv.E))
 		}
 	}
+	vc.fnSSA, vc.paramVals = fn, f.params
 	f.entry = h0.clone()
 	ctx := f.specCtx(f.entry, nil)
 	// closed world for interface-typed parameters is assumed at invoke sites
@@ -200,6 +201,11 @@ func (en *Engine) verifyFunc(fn *ssa.Function, ct *FuncContract, findings ...*Fi
 		var conds []string
 		if !r.dup {
 			conds = f.splitConds(r.block)
+		}
+		if len(r.vals) > 0 {
+			vc.curRes = r.vals
+		} else {
+			vc.curRes = nil
 		}
 		for k, e := range en.activeClauses(ct.Ensures, ct) {
 			name := fmt.Sprintf("post.%s@return#%d", clauseName(e, k), ri+1)
@@ -389,7 +395,7 @@ func (f *Frame) splitConds(b *ssa.BasicBlock) []string {
 	if len(b.Preds) > 1 && f.loops[b] == nil {
 		walk(b, 0)
 	}
-	if len(out) > 96 {
+	if len(out) > 320 {
 		return nil
 	}
 	return out
